@@ -247,8 +247,13 @@ pub fn generate(r: &mut Runner) {
             if np == 0 && p > 1 {
                 break;
             }
-            for (li, level) in [1e-310, 3e-308, 1e-300, 1e-160, 1e150].into_iter().enumerate() {
+            for (li, level) in [1e-310, 3e-308, 1e-300, 1e-160, 1e150, 2e154, 1e160, 1e300].into_iter().enumerate() {
                 for with_prefix in [false, true] {
+                    // levels whose SQUARE overflows: flat from the first input only (an active prefix at that scale
+                    // overflows legitimately in every second-moment accumulator)
+                    if with_prefix && level > 1e153 {
+                        continue;
+                    }
                     let ps: Vec<usize> = (0..np).map(|j| if j == 0 { p } else { 1 + (p + j) % 5 }).collect();
                     let ms: Vec<f64> = (0..nm).map(|_| 2.0).collect();
                     let mut c = Case::new("C08", "flat-extreme-level", name, &ps, &ms);
@@ -337,4 +342,4 @@ pub fn generate(r: &mut Runner) {
     }
 }
 
-pub const RULE: &str = "for all 22 indicators and periods 1..=8: six prefix variants (none, 1 input, n+1, 3n+7 inputs; walk/alt/spike regimes incl. x10^6 spikes, scalars or valid bars) followed by a flat stretch of 3n+5 inputs (one variant: 1200 quick / 6000 thorough inputs, long enough for exponential averages to underflow) at levels {1, 0.1, 100, 12345.678, 1e6, 3.3e-3}, volumes incl. 0; plus zero-volume stretches with moving prices for MFI/OBV after prefixes with x10^6 volumes; plus flat stretches at the extreme levels {1e-310, 3e-308, 1e-300, 1e-160, 1e150} for periods 1, 2, 5, 14 with and without a prefix at the same scale; plus sampled periods to 128 after histories to 400 inputs. NEGATIVE flat levels: every short-stretch case of the first stage and every extreme-level case is run a second time mirrored (all prices negated, high/low swapped, volumes kept: levels -1, -0.1, -100, -1e6, -3.3e-3, -1e-310 .. -1e150, prefixes negative too), and 30% of the sampled cases are mirrored, for all indicators except MoneyFlowIndex (money flow presupposes positive prices). Long prefixes (6 quick / 60 thorough rounds over all 22 indicators, a quarter mirrored): period from {1,2,3,5,8,14,20,50,128}, an active prefix in one of 9 regimes at scale {1,100,1e6} of length uniform in [n+1, 5000] (thorough 40000) or N+n+j with N a round count from {256,512,1000,1024,2000,2048,4096,5000 (thorough also 8192..32768)} and j in 0..=3, then a flat stretch of n+2..n+21 inputs. A quarter of the long-prefix cases call reset() right before the stretch (the window is then degenerate from the first stretch input, t and the magnitude budget restart). Every step of the stretch: outputs finite and inside the documented range; once the reference window is degenerate (n, or n+1 for ROC/ER/MFI, equal inputs): FastStochastic 50, CCI 0, ROC 0, TrueRange 0 exactly, MAD <= tau(t)*M, SD <= sqrt(tau(t))*M, Bollinger bands within sqrt(tau(t))*M of the average. Non-trivial = non-empty active prefix.";
+pub const RULE: &str = "for all 22 indicators and periods 1..=8: six prefix variants (none, 1 input, n+1, 3n+7 inputs; walk/alt/spike regimes incl. x10^6 spikes, scalars or valid bars) followed by a flat stretch of 3n+5 inputs (one variant: 1200 quick / 6000 thorough inputs, long enough for exponential averages to underflow) at levels {1, 0.1, 100, 12345.678, 1e6, 3.3e-3}, volumes incl. 0; plus zero-volume stretches with moving prices for MFI/OBV after prefixes with x10^6 volumes; plus flat stretches at the extreme levels {1e-310, 3e-308, 1e-300, 1e-160, 1e150} for periods 1, 2, 5, 14 with and without a prefix at the same scale, and at {2e154, 1e160, 1e300} (the square of the level overflows, sums do not) from the first input of a fresh instance; plus sampled periods to 128 after histories to 400 inputs. NEGATIVE flat levels: every short-stretch case of the first stage and every extreme-level case is run a second time mirrored (all prices negated, high/low swapped, volumes kept: levels -1, -0.1, -100, -1e6, -3.3e-3, -1e-310 .. -1e300, prefixes negative too), and 30% of the sampled cases are mirrored, for all indicators except MoneyFlowIndex (money flow presupposes positive prices). Long prefixes (6 quick / 60 thorough rounds over all 22 indicators, a quarter mirrored): period from {1,2,3,5,8,14,20,50,128}, an active prefix in one of 9 regimes at scale {1,100,1e6} of length uniform in [n+1, 5000] (thorough 40000) or N+n+j with N a round count from {256,512,1000,1024,2000,2048,4096,5000 (thorough also 8192..32768)} and j in 0..=3, then a flat stretch of n+2..n+21 inputs. A quarter of the long-prefix cases call reset() right before the stretch (the window is then degenerate from the first stretch input, t and the magnitude budget restart). Every step of the stretch: outputs finite and inside the documented range; once the reference window is degenerate (n, or n+1 for ROC/ER/MFI, equal inputs): FastStochastic 50, CCI 0, ROC 0, TrueRange 0 exactly, MAD <= tau(t)*M, SD <= sqrt(tau(t))*M, Bollinger bands within sqrt(tau(t))*M of the average. Non-trivial = non-empty active prefix.";
